@@ -96,6 +96,24 @@ class Model:
             self.nodes, self.edges, self.hmeta, self.layers_ever, self.hmeta_unknown = snapshot
         return r
 
+    # constructor with arguments (Appendix A, first row): only on a pristine object
+    def op_ctor(self, op):
+        if self.nodes or self.edges or self.hmeta_unknown or not op.get("_first"):
+            raise Ambiguous("constructor arguments only for the first operation of the first object")
+        types = {"H": "Hypergraph", "D": "DirectedHypergraph", "T": "TemporalHypergraph", "M": "MultiplexHypergraph"}
+        self.hmeta = dict(jcopy(op.get("hmeta") or {}))
+        self.hmeta.update({"weighted": self.weighted, "type": types[self.kind]})
+        for n, md in op.get("nmd") or []:
+            self._add_node(n, md)
+        if op.get("es"):
+            sub = {"op": "add_edges", "es": op["es"]}
+            for f in ("ws", "mds", "ts", "layers"):
+                if op.get(f) is not None:
+                    sub[f] = op[f]
+            if self.op_add_edges(sub) != "ok":
+                raise Ambiguous("constructor that raises")
+        return "ok"
+
     # nodes
     def _add_node(self, n, md):
         if n not in self.nodes:
